@@ -94,10 +94,41 @@ pub fn show_f64(x: f64) -> String {
     }
 }
 
+/// `digest <request>`: the response of `<request>`, with an `ok <id list>` payload replaced by
+/// `ok n=<len> h=<order-sensitive hash> s=<sum mod 2^64> x=<xor>` (bulk requests whose full result is too long to ship)
+fn digest(resp: &str) -> String {
+    let body = match resp.strip_prefix("ok ") {
+        Some(b) => b,
+        None => return resp.to_string(),
+    };
+    let l = match p_list(body) {
+        Some(l) => l,
+        None => {
+            // any other payload (a ring of points): number of `;`-separated items and the FNV-1a hash of the text
+            let mut h = 0xcbf29ce484222325u64;
+            for &b in body.as_bytes() {
+                h = (h ^ b as u64).wrapping_mul(1099511628211);
+            }
+            return format!("ok n={} h={}", body.matches(';').count() + 1, h);
+        }
+    };
+    let (mut h, mut sm, mut x) = (0xcbf29ce484222325u64, 0u64, 0u64);
+    for &v in &l {
+        h = (h ^ v).wrapping_mul(1099511628211);
+        sm = sm.wrapping_add(v);
+        x ^= v;
+    }
+    format!("ok n={} h={} s={} x={}", l.len(), h, sm, x)
+}
+
 pub fn handle_line(line: &str) -> Option<String> {
     let toks: Vec<&str> = line.split_whitespace().collect();
     if toks.is_empty() {
         return None;
+    }
+    if toks[0] == "digest" {
+        let rest = line.trim_start().strip_prefix("digest")?;
+        return handle_line(rest).map(|r| digest(&r));
     }
     let op = toks[0];
     let a = &toks[1..];
@@ -478,6 +509,125 @@ pub fn run_hammer(args: &[String]) {
     use std::io::Write;
     for i in 0..n {
         match &bad[i] {
+            None => writeln!(o, "{}", base[i]).unwrap(),
+            Some(r) => writeln!(o, "MISMATCH {}", r).unwrap(),
+        }
+    }
+    o.flush().unwrap();
+}
+
+/// `a5h mine SEED COUNT RLO RHI MINBRANCH`: hard-case mining.  COUNT uniformly random points of the sphere (own splitmix64 generator) are
+/// looked up at random resolutions RLO..=RHI; only the lookups that ended in the fallback or needed at least MINBRANCH distinct estimates
+/// are printed, as request lines, for the model and the oracle to judge.  (7 microseconds per lookup: 10^7..10^9 points are affordable
+/// here and nowhere else.)
+pub fn run_mine(args: &[String]) {
+    use a5::coordinate_systems::LonLat;
+    let seed: u64 = args.first().and_then(|a| a.parse().ok()).unwrap_or(1);
+    let count: u64 = args.get(1).and_then(|a| a.parse().ok()).unwrap_or(100000);
+    let rlo: i32 = args.get(2).and_then(|a| a.parse().ok()).unwrap_or(2);
+    let rhi: i32 = args.get(3).and_then(|a| a.parse().ok()).unwrap_or(29);
+    let minb: i32 = args.get(4).and_then(|a| a.parse().ok()).unwrap_or(6);
+    let mut st = seed.wrapping_mul(0x9E3779B97F4A7C15).wrapping_add(0x1234567);
+    let mut next = move || {
+        st = st.wrapping_add(0x9E3779B97F4A7C15);
+        let mut z = st;
+        z = (z ^ (z >> 30)).wrapping_mul(0xBF58476D1CE4E5B9);
+        z = (z ^ (z >> 27)).wrapping_mul(0x94D049BB133111EB);
+        z ^ (z >> 31)
+    };
+    let stdout = std::io::stdout();
+    let mut o = std::io::BufWriter::new(stdout.lock());
+    use std::io::Write;
+    let mut hist = [0u64; 34];
+    for _ in 0..count {
+        let u = (next() >> 11) as f64 / (1u64 << 53) as f64;
+        let v = (next() >> 11) as f64 / (1u64 << 53) as f64;
+        let lon = -180.0 + 360.0 * u;
+        let lat = (2.0 * v - 1.0).asin().to_degrees();
+        let r = rlo + (next() % ((rhi - rlo + 1) as u64)) as i32;
+        a5::core::cell::VERIF_LAST_BRANCH.with(|b| b.set(-3));
+        let res = catch_unwind(AssertUnwindSafe(|| a5::lonlat_to_cell(LonLat::new(lon, lat), r)));
+        let br = a5::core::cell::VERIF_LAST_BRANCH.with(|b| b.get());
+        hist[(br + 3).clamp(0, 33) as usize] += 1;
+        let hard = match res {
+            Ok(Ok(_)) => br == -1 || br >= minb,
+            _ => true,
+        };
+        if hard {
+            // `F` = ended in the fallback (or failed), `H` = needed many estimates
+            let tag = if br >= minb { "H" } else { "F" };
+            writeln!(o, "{} lonlat_to_cell {} {} {}", tag, show_f64(lon), show_f64(lat), r).unwrap();
+        }
+    }
+    let h: Vec<String> = hist.iter().enumerate().filter(|(_, &c)| c > 0).map(|(i, c)| format!("{}:{}", i as i32 - 3, c)).collect();
+    writeln!(o, "# branches {}", h.join(" ")).unwrap();
+    o.flush().unwrap();
+}
+
+/// `a5h teardown`: the library called while a thread is being torn down.  Each request is answered on the main thread, then by the
+/// destructor of an application thread-local on a worker thread that is exiting - once for a thread-local first touched BEFORE the
+/// thread's first library call (destroyed after the library's own thread-locals) and once for one touched after it.  A library that
+/// frees per-thread state in a destructor but keeps handing it out panics (or worse) here; answers must equal the main thread's.
+pub fn run_teardown(_args: &[String]) {
+    use std::cell::RefCell;
+    use std::io::BufRead;
+    use std::sync::{Arc, Mutex};
+    struct Guard {
+        lines: Vec<String>,
+        sink: Option<Arc<Mutex<Vec<Vec<String>>>>>,
+    }
+    impl Drop for Guard {
+        fn drop(&mut self) {
+            if let Some(sink) = &self.sink {
+                let res: Vec<String> = self.lines.iter().map(|l| handle_plain_caught(l)).collect();
+                sink.lock().unwrap().push(res);
+            }
+        }
+    }
+    thread_local! {
+        static GUARD: RefCell<Guard> = RefCell::new(Guard { lines: Vec::new(), sink: None });
+    }
+    let lines: Vec<String> = std::io::stdin().lock().lines().map_while(Result::ok).collect();
+    let n = lines.len();
+    let base: Vec<String> = lines.iter().map(|l| handle_plain_caught(l)).collect();
+    let sink: Arc<Mutex<Vec<Vec<String>>>> = Arc::new(Mutex::new(Vec::new()));
+    for early in [true, false, true] {
+        let (l2, s2) = (lines.clone(), Arc::clone(&sink));
+        let h = std::thread::spawn(move || {
+            let arm = |l2: Vec<String>, s2: Arc<Mutex<Vec<Vec<String>>>>| {
+                GUARD.with(|g| {
+                    let mut g = g.borrow_mut();
+                    g.lines = l2;
+                    g.sink = Some(s2);
+                })
+            };
+            if early {
+                arm(l2.clone(), Arc::clone(&s2));
+            }
+            for l in l2.iter() {
+                let _ = handle_plain_caught(l);
+            }
+            if !early {
+                arm(l2.clone(), Arc::clone(&s2));
+            }
+        });
+        let _ = h.join();
+    }
+    let got = sink.lock().unwrap();
+    let stdout = std::io::stdout();
+    let mut o = std::io::BufWriter::new(stdout.lock());
+    use std::io::Write;
+    for i in 0..n {
+        let mut bad: Option<String> = None;
+        if got.len() < 3 {
+            bad = Some(format!("only {} of 3 thread destructors completed", got.len()));
+        }
+        for g in got.iter() {
+            if g[i] != base[i] {
+                bad = Some(g[i].clone());
+            }
+        }
+        match bad {
             None => writeln!(o, "{}", base[i]).unwrap(),
             Some(r) => writeln!(o, "MISMATCH {}", r).unwrap(),
         }
